@@ -419,3 +419,14 @@ Proof.
   destruct (zcp_icp_all zs Hs) as [E1 E2].
   unfold path_image. rewrite Hx, Hy, E2, E1, Hz. reflexivity.
 Qed.
+
+(* the same, stated on the transcribed convert_path_str (started on an empty curve buffer, as
+   parse_hit_objects does) *)
+Theorem convert_path_str_image pos s vs cps vs' :
+  coord_ok (px pos) = true -> coord_ok (py pos) = true ->
+  convert_path_str (mkPB [] vs) s pos = Done (mkPB cps vs', Ok) -> path_image pos cps = true.
+Proof.
+  intros Hx Hy H. destruct (convert_path_str_spec (mkPB [] vs) s pos) as [V HV]. rewrite HV in H.
+  destruct (path_spec s pos) as [c ok] eqn:E. cbn [fst snd pb_curve app] in H.
+  destruct ok; [|discriminate]. injection H as <- _. exact (path_spec_image pos s c Hx Hy E).
+Qed.
